@@ -50,6 +50,7 @@ func alphabet(thorough bool) []opT {
 		}
 	}
 	ops = append(ops, opT{"add", 0, 1, feeLo + 5, 3}, opT{"add", 1, 0, feeLo + 7, 1}, opT{"add", 0, 2, feeLo + 9, 1})
+	ops = append(ops, opT{"add", 0, 3, feeLo, 0}) // a nonce beyond a gap
 	ops = append(ops, opT{Kind: "reorg"})
 	if thorough {
 		ops = append(ops, opT{"add", 2, 0, feeLo + 50, 0}, opT{"remove", 0, 0, feeHi, 0})
@@ -208,6 +209,22 @@ func main() {
 			}
 		}
 		rec([]opT{ops[j.first]})
+		// deeper histories of one sender (promotion, gaps, removals): depth 5 over the single-sender sub-alphabet
+		if cfg.PerSender >= 2 {
+			single := []opT{}
+			for _, o := range ops {
+				if o.Kind == "reorg" || (o.Sender == 0 && o.Script == 0 && o.Fee == feeLo) {
+					single = append(single, o)
+				}
+			}
+			first := ops[j.first]
+			if first.Kind == "reorg" || (first.Sender == 0 && first.Script == 0 && first.Fee == feeLo) {
+				save, saveOps := depth, ops
+				depth, ops = 5, single
+				rec([]opT{first})
+				depth, ops = save, saveOps
+			}
+		}
 	})
 	// ---- (b) interleavings ----
 	bound := 2
